@@ -34,25 +34,40 @@ Theorem rejection_complete :
 Proof. exact rejection_complete_all. Qed.
 Print Assumptions rejection_complete.
 
-(** (a) Progress.  Full statement (NOT proved):
-      forall sch root q data fuel, prepare repaired sch root q = ROk n -> has_type sch false (TNamed root) data ->
-                                   eval sch (q_frags q) fuel (TNamed root) (Some (q_sel q)) data <> EShape.
-    Proved here: validation itself cannot go wrong on any query Parse returned, for every schema in
-    which field types and union members are defined (no crash, no unbounded recursion); the
-    execution half is checked by the oracle only (a validated query must execute without error on
-    generated schemas and data). *)
-Theorem validation_cannot_go_wrong_partial :
+(** (a) Progress: a query that Parse returned and PrepareQuery accepted cannot fail for a type or shape
+    reason.  For every schema, every data value that is well-typed for the root type (every field of the
+    schema has a value of its type; non-null types hold no nil except as list entries), and every
+    recursion budget, the reference evaluator never answers [EShape] (field missing from the type or
+    the data, sub-selection on a leaf, none on a composite, unknown type, fragment that cannot be
+    expanded): it answers a JSON value, or [EFuel] when the budget is smaller than the depth of the
+    data.  Any two variants may be used for Parse and for PrepareQuery. *)
+Theorem validated_query_cannot_go_wrong :
+  forall (v v' : variant) (doc : gdoc) (vars : jargs) (q : query) (c : nat) (sch : schema) (root : string) (n : nat)
+         (data : value) (fuel : nat),
+    convert v doc vars = ROk (q, c) -> prepare v' sch root q = ROk n ->
+    has_type sch false (TNamed root) data ->
+    eval sch (q_frags q) fuel (TNamed root) (Some (q_sel q)) data <> EShape.
+Proof. exact progress_all. Qed.
+Print Assumptions validated_query_cannot_go_wrong.
+
+(** Validation itself cannot go wrong either: no crash, no unbounded recursion, on any query Parse
+    returned, for every schema in which field types and union members are defined. *)
+Theorem validation_never_crashes :
   forall (v : variant) (doc : gdoc) (vars : jargs) (q : query) (c : nat) (sch : schema) (root : string),
     convert v doc vars = ROk (q, c) -> schema_closed sch -> lookup root sch <> None ->
     is_crash (prepare v sch root q) = false.
 Proof. exact (fun v doc vars q c sch root H => prepare_nocrash v sch root q (convert_certified v doc vars q c H)). Qed.
-Print Assumptions validation_cannot_go_wrong_partial.
+Print Assumptions validation_never_crashes.
 
 (** Non-vacuity. *)
 Example ex_eval :
   eval ex_sch [] 10 (TNamed "Query") (Some ex_sel) ex_data =
   EOk (JObj [("n", JNum 3); ("o", JObj [("__typename", JStr "Obj"); ("tags", JArr [JStr "a"; JNull]); ("shade", JStr "DARK")])]).
 Proof. reflexivity. Qed.
+Example ex_data_well_typed_and_enough_fuel :
+  has_type ex_sch false (TNamed "Query") ex_data /\
+  exists j, eval ex_sch [] 10 (TNamed "Query") (Some ex_sel) ex_data = EOk j.
+Proof. split; [exact ex_data_typed | eexists; reflexivity]. Qed.
 Example ex_rejected :
   prepare orig ex_sch "Query" {| q_name := ""; q_kind := "query"; q_sel := [TField "o" "obj" [] [] (Some [TField "x" "nope" [] [] None])]; q_frags := [] |}
   = RErr EPUnknownField.
